@@ -140,6 +140,21 @@ def r2_enders(ctx):
         r.check(closer in reach, '%s|recv-closer' % short, f.file, '%s reaches %s for every stream' % (short, closer.split('::')[-1]))
         r.check(P + 'send::Send::handle_error' in reach, '%s|send-closer' % short, f.file, '%s reaches Send::handle_error for every stream' % short)
         r.check(P + 'counts::Counts::transition' in reach, '%s|transition' % short, f.file, 'the per-stream closure runs inside Counts::transition')
+        # inside the innermost closure both closers are passed on EVERY path (no early "already closed" return)
+        inner = [F.fns[c] for c in reach if c in F.fns and c.startswith(fname + '::{closure') and F.fns[c].calls_to(closer)]
+        for g in inner:
+            for callee in (closer, P + 'send::Send::handle_error'):
+                cs = [bi for bi, t in g.calls_to(callee)]
+                rr = g.reachable([0], cut_blocks=cs)
+                r.check(bool(cs) and not any(x in rr for x in g.returns()), '%s|all-paths|%s' % (short, callee.split('::')[-1]), g.file,
+                        'the per-stream closure of %s passes %s on every path' % (short, core.short(callee)))
+        if fname != INNER + 'recv_go_away':
+            # and the closure is run for every stream: for_each is not nested under a per-stream condition in the outer closure
+            outer = [F.fns[c] for c in reach if c in F.fns and c.startswith(fname + '::{closure') and F.fns[c].calls_to(P + 'counts::Counts::transition')]
+            for g in outer:
+                cs = [bi for bi, t in g.calls_to(P + 'counts::Counts::transition')]
+                rr = g.reachable([0], cut_blocks=cs)
+                r.check(bool(cs) and not any(x in rr for x in g.returns()), '%s|every-stream' % short, g.file, '%s runs the transition for every stream in the store (no per-stream skip)' % short)
         ws = [bi for bi, si, pl, rv, ln in f.stmts() if core.write_target(f, pl) == (P + 'streams::Actions', 'conn_error')]
         rr = f.reachable([0], cut_blocks=ws)
         errs_only = all(True for x in f.returns())
